@@ -20,7 +20,9 @@ type CfgInput struct {
 }
 
 var jsonAtoms = []string{`null`, `true`, `0`, `-1`, `1e308`, `1.5`, `""`, `"x"`, `"0s"`, `"-1s"`, `"0B"`, `"10Mxyz"`, `"K"`, `"9223372036854775808B"`, `[]`, `[1]`, `{}`,
-	`"memory"`, `"file"`, `"DEBUG"`, `"LOUD"`, `18446744073709551616`, `"\u0000"`, `"1h"`, `101`, `-2147483649`}
+	`"memory"`, `"file"`, `"DEBUG"`, `"LOUD"`, `18446744073709551616`, `"\u0000"`, `"1h"`, `101`, `-2147483649`,
+	// objects where a scalar setting is expected, with the key names a reflective decoder might trip over
+	`{"":1}`, `{"x":1}`, `{"value":1}`, `{"":{"":{}}}`, `[{}]`, `{"":null}`, `{"-":1}`}
 
 func drawJSONDoc(t *rapid.T) string {
 	// mostly documents shaped like the real configuration, with arbitrary values at the leaves
